@@ -156,6 +156,55 @@ fn branch_mentions_a_variable(p: &Program) -> bool {
     name_in_branch(&p.body, &names)
 }
 
+fn let_bound_names(e: &Expr, out: &mut Vec<String>) {
+    match e {
+        Expr::Lit(_) | Expr::Var(_) | Expr::Quote(_) | Expr::ModVal(_) => {}
+        Expr::Prim(_, a) | Expr::List(a) | Expr::MacroCall(_, a) => a.iter().for_each(|x| let_bound_names(x, out)),
+        Expr::If(a, b, c) => {
+            let_bound_names(a, out);
+            let_bound_names(b, out);
+            let_bound_names(c, out);
+        }
+        Expr::Call(_, a, r) => {
+            a.iter().for_each(|x| let_bound_names(x, out));
+            if let Some(r) = r {
+                let_bound_names(r, out);
+            }
+        }
+        Expr::Let(_, bs, body) => {
+            for (p, x) in bs {
+                let mut v = vec![];
+                p.vars(&mut v);
+                out.extend(v.into_iter().map(|x| x.0));
+                let_bound_names(x, out);
+            }
+            let_bound_names(body, out);
+        }
+        Expr::Lambda(_, _, b) => let_bound_names(b, out),
+        Expr::Apply(a, b) => {
+            let_bound_names(a, out);
+            let_bound_names(b, out);
+        }
+        Expr::QQ(_) => {}
+    }
+}
+
+/// the shape the listed let finding needs: somewhere in the program a branch of a conditional mentions a let / assign bound name
+/// (`extra`: names bound by a let the harness itself put around the expression)
+fn branch_mentions_a_let_bound_name(p: &Program, extra: &[String]) -> bool {
+    let mut names: Vec<String> = extra.to_vec();
+    let_bound_names(&p.body, &mut names);
+    for h in p.helpers.iter() {
+        if let Helper::Fun(f) = h {
+            let_bound_names(&f.body, &mut names);
+        }
+    }
+    if names.is_empty() {
+        return false;
+    }
+    name_in_branch(&p.body, &names) || p.helpers.iter().any(|h| matches!(h, Helper::Fun(f) if name_in_branch(&f.body, &names)))
+}
+
 fn has_gensym_atom(v: &V) -> bool {
     match v {
         V::A(b) => b.windows(3).any(|w| w == b"_$_"),
@@ -223,6 +272,24 @@ fn program_text(params: &str, defs: &[String], body: &str) -> String {
 }
 
 pub fn run(cfg: &Cfg) -> i32 {
+    if cfg.rest.first().map(|x| x == "--print").unwrap_or(false) {
+        // vh c16 --print s<seed>-<shard>-<i>
+        let parts: Vec<u64> = cfg.rest[1].trim_start_matches('s').split('-').map(|x| x.parse().unwrap()).collect();
+        let mut gcfg = GenCfg::modern();
+        gcfg.allow_nested_mod = false;
+        gcfg.allow_zero_led = false;
+        let case = case_at(parts[0], parts[1], parts[2], &gcfg);
+        println!("{}", case.text(Dialect::Cl21));
+        if let Some(t) = crate::engines::c17::lift_program(&case.prog) {
+            println!("---- twin\n{}", render_program(&t, Dialect::Cl21, false));
+            for a in case.args.iter().take(2) {
+                println!("args {} -> twin answer {:?}", a.show(), twin_answer(&case, Dialect::Cl21, a).map(|v| v.show()));
+            }
+        } else {
+            println!("---- no twin");
+        }
+        return 0;
+    }
     let mut out = Out::new("C16", cfg);
     let shard = cfg.shard as u64;
     let nprog: usize = std::env::var("VH_NPROG").ok().and_then(|x| x.parse().ok()).unwrap_or(cfg.pick(150, 2500));
@@ -320,7 +387,15 @@ pub fn run(cfg: &Cfg) -> i32 {
                             // (x_$_85), or the let form is wrong where the wrapper form (same expression, parameters bound by a function
                             // application instead of a let) was right for the same arguments.
                             let leaked_name = has_gensym_atom(&v);
-                            let sig = if leaked_name || (*form == "let" && wrapper_ok) || twin_answer(&case, d, a).as_ref() == Some(w) { Some("repl:let-bound-variable-in-conditional-branch-becomes-its-name") } else { None };
+                            let exact = leaked_name || (*form == "let" && wrapper_ok) || twin_answer(&case, d, a).as_ref() == Some(w);
+                            // Where the let-free twin cannot be evaluated (the evaluator gives up on it) the finding is attributed by shape:
+                            // the program has a conditional branch that mentions a let / assign bound name (for the let form: a parameter).
+                            let extra: Vec<String> = if *form == "let" { bs.iter().map(|x| x.0.clone()).collect() } else { vec![] };
+                            let by_shape = !exact && twin_answer(&case, d, a).is_none() && branch_mentions_a_let_bound_name(&case.prog, &extra);
+                            if by_shape {
+                                out.count("closed.finding_attributed_by_shape_twin_not_evaluable");
+                            }
+                            let sig = if exact || by_shape { Some("repl:let-bound-variable-in-conditional-branch-becomes-its-name") } else { None };
                             out.violation(json!({"kind":"repl_constant_differs_from_the_compiled_program","engine":"c16","sig":sig,"form":form,"case":id,"definitions":defs,"expression":trunc(closed,1500),"repl":v.show(),"compiled_program_returns":w.show(),"args":a.show()}));
                         }
                         Outcome::CostCap => out.inconclusive("costcap", json!({"case": id})),
@@ -356,7 +431,14 @@ pub fn run(cfg: &Cfg) -> i32 {
                             case.prog.params.vars(&mut vars);
                             let names: Vec<String> = vars.into_iter().map(|x| x.0).collect();
                             let _ = names;
-                            let sig = if branch_mentions_a_variable(&case.prog) || has_gensym_atom(&v) { Some("repl:free-variable-in-conditional-branch-is-quoted-as-its-name") } else { None };
+                            let sig = if branch_mentions_a_variable(&case.prog) || has_gensym_atom(&v) {
+                                Some("repl:free-variable-in-conditional-branch-is-quoted-as-its-name")
+                            } else if branch_mentions_a_let_bound_name(&case.prog, &[]) {
+                                // the expression itself is closed under its branches, but a helper it calls has the let shape
+                                Some("repl:let-bound-variable-in-conditional-branch-becomes-its-name")
+                            } else {
+                                None
+                            };
                             out.violation(json!({"kind":"repl_constant_differs_from_the_compiled_program","engine":"c16","sig":sig,"case":id,"definitions":defs,"expression":trunc(&body,1500),"repl":v.show(),"compiled_program_returns":w.show(),"args":a.show(),"open":true}));
                         } else {
                             judged += 1;
